@@ -109,6 +109,7 @@ contract(PF, "Pulse.ConstantPulse", props=("C02", "C15", "C16"),
              ("const", z3.Implies(const_defs(T(c.res)), z3.And(IS_CONST(T(c.res)), CONST_AMP(T(c.res)) == T(c.amplitude), CONST_DET(T(c.res)) == T(c.detuning)))),
              ("detuned-delay-iff-zero-amp", z3.Implies(idd_def(T(c.res)), IS_DETUNED_DELAY(T(c.res)) == (T(c.amplitude) == 0))),
              ("phase-in-range", z3.And(p_phase(T(c.res)) >= 0, p_phase(T(c.res)) < 2 * PI)),
+             ("phase-and-post-phase-shift-mod-2pi", z3.And(mod2pi(T(c.phase), p_phase(T(c.res))), mod2pi(T(c.post_phase_shift), P_PPS(T(c.res))))),
              ("phase-unchanged-in-range", z3.Implies(z3.And(T(c.phase) >= 0, T(c.phase) < 2 * PI), p_phase(T(c.res)) == T(c.phase))),
          ])
 
@@ -152,7 +153,7 @@ contract(PF, "Pulse.__init__", props=("C01", "C07", "C16"),
              ("phase-mod-2pi", mod2pi(T(c.phase), p_phase(T(c.self)))),
              ("post-phase-shift-mod-2pi", mod2pi(T(c.post_phase_shift), P_PPS(T(c.self)))),
          ])
-inline("pulser-core/pulser/sequence/_schedule.py", "_PhaseDriftParams.calc_phase_drift")
+# (_PhaseDriftParams.calc_phase_drift has its own contract in contracts/eom_seq.py: result == DRIFT(rate, tf - ti))
 
 
 # definitions of the pulse-level spec functions (conservative: each is an explicit definition)
